@@ -95,7 +95,12 @@ def margin():
 
 
 def lt(a, b):
-    """a < b strictly, by the oracle's margin"""
+    """a < b strictly, by the oracle's margin.  In concrete (replay) mode strictness must
+    survive floating-point rounding: the gap has to exceed 1e-9 relative to the operands,
+    otherwise the position counts as 'within rounding of the boundary' (exempt)."""
+    if symx.CTX is None and not isinstance(a, SymReal) and not isinstance(b, SymReal):
+        a, b = float(a), float(b)
+        return a + 1e-9 * max(1.0, abs(a), abs(b)) < b
     return a + margin() < b
 
 
@@ -499,3 +504,9 @@ def tv_case(prop, kernels, seed, n=40):
     res['wall_s'] = round(time.time() - t0, 3)
     res['stats'] = solve.Stats().as_dict()
     return res
+
+
+def Sqrt(x):
+    if isinstance(x, SymReal):
+        return x.sqrt()
+    return math.sqrt(x)
